@@ -139,9 +139,11 @@ fn evaluate_rtrim(args: &[Value]) -> Value {
 fn evaluate_substring(args: &[Value]) -> Value {
     if let Some(Value::String(s)) = args.first() {
         if let Some(Value::Int(start)) = args.get(1) {
-            let start = *start as usize;
+            // Negative arguments select nothing (like `left`/`right`); a bare `as usize` would turn
+            // them into huge offsets and overflow `start + l` below.
+            let start = usize::try_from(*start).unwrap_or(usize::MAX);
             let len = if let Some(Value::Int(l)) = args.get(2) {
-                Some(*l as usize)
+                Some(usize::try_from(*l).unwrap_or(0))
             } else {
                 None
             };
@@ -151,7 +153,7 @@ fn evaluate_substring(args: &[Value]) -> Value {
                 Value::String(String::new())
             } else {
                 let end = if let Some(l) = len {
-                    (start + l).min(chars.len())
+                    start.saturating_add(l).min(chars.len())
                 } else {
                     chars.len()
                 };
